@@ -8,7 +8,7 @@
 From Coq Require Import List NArith Bool.
 From Coq Require Import Strings.Byte.
 From HN Require Import Base.Bytes Model.SigAst Model.SigText Model.DbLoad Spec.SigTextSpec Spec.DbLoadSpec
-  Spec.DbDocSpec Gen.Bundled Spec.BundledSpec Proofs.SigTextProofs Proofs.SigSpecProofs Proofs.SigEquivProofs Proofs.DbLoadProofs Proofs.DbTextProofs
+  Spec.DbDocSpec Gen.Bundled Spec.BundledSpec Proofs.SigTextProofs Proofs.SigSpecProofs Proofs.SigEquivProofs Proofs.DbLoadProofs Proofs.DbTextProofs Proofs.DbTextLoadProofs
   Proofs.BundledProofs Proofs.FuelProofs.
 Import ListNotations.
 Open Scope N_scope.
@@ -147,8 +147,7 @@ Proof. vm_compute. repeat split; reflexivity. Qed.
    the reference reader (Spec/DbLoadSpec.v) on every input — label values, MTU values, the `name = value`
    split (any blanks around '='), and trimming (Unicode trim = ASCII trim whenever the trimmed line has ASCII
    edges, which is the reference reader's stated domain).  Together with C06_model_equals_reference every
-   VALUE reader of a database line is covered; not yet composed into  known_db t = false -> load t = spec_load t
-   (missing: `[module]` / `classes` / `ua_os` lines on arbitrary text, the line dispatch, the fold). *)
+   VALUE reader of a database line is covered; composed into the text-level theorem C06_db_text below. *)
 Theorem C06_line_readers_equal_reference :
   (forall v : bytes, match parse_label v with
                      | Some (l, r) => r = [] /\ spec_label v = Some l
@@ -171,6 +170,45 @@ Check C06_line_readers_equal_reference :
      | None => None end) /\
   (forall raw : bytes, non_ascii_edge raw = false -> trim raw = trim_ascii raw).
 Print Assumptions C06_line_readers_equal_reference.
+
+(* ---------- (3') the same on ARBITRARY database texts ---------- *)
+(* for every byte string t — any spacing around `=`, blank lines, comments, CR LF or LF line ends, junk, lines in any
+   order — whose trimmed lines have ASCII edges (ascii_edges: the reference reader's stated domain; it returns "-" on
+   the rest) and that is outside the two open defect classes (known_db = list-remainder or unknown-item-skipped):
+   the loader returns exactly the database the reference reader reads from t, and rejects t when the reference does *)
+Theorem C06_db_text :
+  forall t : bytes, ascii_edges t = true -> known_db t = false -> load t = verdict_opt (spec_load t).
+Proof. exact load_eq_spec_load. Qed.
+Check C06_db_text :
+  forall t : bytes, ascii_edges t = true -> known_db t = false -> load t = verdict_opt (spec_load t).
+Print Assumptions C06_db_text.
+
+(* the bundled p0f.fp as one text lies in the domain; it is in the known class only through its ua_os line (no unknown
+   item); without that one line it is outside both classes, so C06_db_text applies to it *)
+Theorem C06_db_text_bundled :
+  (ascii_edges bundled_text = true /\ known_db bundled_text = true /\ known_unknown_item bundled_text = false /\
+   ascii_edges bundled_text_plain = true /\ known_db bundled_text_plain = false /\
+   length (filter lossy_line bundled_lines) = 1%nat) /\
+  load bundled_text_plain = verdict_opt (spec_load bundled_text_plain).
+Proof.
+  split; [exact bundled_text_domain|].
+  apply load_eq_spec_load; [exact (proj1 (proj2 (proj2 (proj2 bundled_text_domain)))) | exact (proj1 (proj2 (proj2 (proj2 (proj2 bundled_text_domain)))))].
+Qed.
+Check C06_db_text_bundled :
+  (ascii_edges bundled_text = true /\ known_db bundled_text = true /\ known_unknown_item bundled_text = false /\
+   ascii_edges bundled_text_plain = true /\ known_db bundled_text_plain = false /\
+   length (filter lossy_line bundled_lines) = 1%nat) /\
+  load bundled_text_plain = verdict_opt (spec_load bundled_text_plain).
+Print Assumptions C06_db_text_bundled.
+
+Example C06_db_text_hypotheses :
+  let t := bs "; c
+classes=win,unix
+ [tcp:request]
+label =  s:unix:Linux:3.x
+sig	= *:064:0:*:mss*20,10:mss,sok,ts,nop,ws:df,id+:0
+" in ascii_edges t = true /\ known_db t = false /\ exists d, spec_load t = VOk d /\ table_counts (db_tcp_request d) = (1, 1)%nat.
+Proof. vm_compute. repeat split. eexists; split; reflexivity. Qed.
 
 (* ---------- (4) a text with an error is rejected as a whole ---------- *)
 Theorem C06_db_all_or_nothing :
